@@ -164,6 +164,15 @@ func runScopeSeq(c *Ctx, mode int, cached bool, shards uint, ops []seqOp) bool {
 		if err := w.closer.Close(); err != nil {
 			c.Cov.Fail(Failure{Kind: "violated", Clause: "further-close-calls-return-nil", Signature: "scopeseq-second-close", Line: line(), Reply: err.Error()})
 		}
+		// "scopes obtained afterwards are inert": by every route - a subscope, new tags, no tags at all (nil, empty map),
+		// from the root and from the handles held since before the Close; recording through them delivers nothing
+		for _, base := range h {
+			for _, late := range []tally.Scope{base.SubScope("late"), base.Tagged(map[string]string{"late": "x"}), base.Tagged(nil), base.Tagged(map[string]string{})} {
+				late.Timer("t").Record(time.Millisecond)
+				late.Counter("c").Inc(1)
+				late.Gauge("g").Update(1)
+			}
+		}
 		tally.VerifReportOnce(w.root)
 		// (timer records through handles obtained before the Close are forwarded at once, as C10 says: not a report pass)
 		if n := c08LogLen(w) - timerAfterClose; n != silentFrom {
